@@ -76,6 +76,17 @@ def constexpr_table(F):
     r.analysed += [ev["path"], enc["path"]]
     m_ev = _find_match(ev, OP)
     m_enc = _find_match(enc, II)
+    # is the value of the match handed to exactly one `.encode(..)` in the function (directly, or as the value of a helper
+    # inlined at its call)?
+    holders = [m_enc]
+    for c in walk(enc["body"]):
+        if c.get("k") in ("Call", "MethodCall") and isinstance(c.get("inlined"), dict):
+            hb = c["inlined"]["body"]
+            while isinstance(hb, dict) and hb.get("k") in ("Block", "DropTemps", "Use") and not hb.get("stmts"):
+                hb = hb.get("expr") or hb.get("e") or {}
+            if hb is m_enc:
+                holders.append(c)
+    enc_of_result = sum(1 for c in walk(enc["body"]) if c.get("k") == "MethodCall" and c["method"] == "encode" and any(x is h for h in holders for x in walk(c["recv"]))) == 1
     opv = F.variants(OP)
     wev = F.variants(WEI)
     iiv = F.variants(II)
@@ -103,8 +114,12 @@ def constexpr_table(F):
                     continue
                 produced.add(iv[2])
                 I2 = Interp(F, opaque=("v128_to_u128",))
-                _, _ = I2.match_on(m_enc, iv)
+                _, ov = I2.match_on(m_enc, iv)
                 encs = [e for e in I2.effects if e[1].endswith("::encode")]
+                if not encs and isinstance(ov, tuple) and len(ov) > 2 and ov[0] == "v" and ov[1] == WEI and enc_of_result:
+                    # the match *returns* the instruction (a helper `fn instr_to_wasmencoder(..) -> Instruction`) and the
+                    # caller encodes that value once: `self.instr_to_wasmencoder(i).encode(&mut bytes)`
+                    encs = [("effect", "wasm_encoder::Encode::encode", [ov])]
                 if len(encs) != 1 or encs[0][2][0][0] != "v" or encs[0][2][0][1] != WEI:
                     r.ob(False)
                     r.violate("%s | %s %s" % (enc["path"], name, lbl), F.loc(enc),
